@@ -150,28 +150,33 @@ Definition lossy_rel (r : rel) : L.relation L.dversion :=
           (map (fun g => map lossy_profile (g_terms g)) (r_profs r)).
 
 (* ================= the token reader on the tokens of a relation ================= *)
-Lemma ws_toks_nolf w : no_lf w = true -> ws_toks w = match w with [] => [] | _ :: _ => [(WHITESPACE, w)] end.
+(* (reader of /repo with proposed_fixes/C14-lossy-newlines.patch: NEWLINE is white space wherever
+   WHITESPACE is, and white space is skipped after the ":" of a qualifier) *)
+Definition wsks (l : list rtoken) : Prop := Forall (fun t => is_ws_kind (fst t) = true) l.
+
+Lemma eat_all l X : wsks l -> L.eat_whitespace (l ++ X) = L.eat_whitespace X.
 Proof.
-  induction w as [|c r IH]; [reflexivity|]. cbn [no_lf forallb]. intros H. apply andb_true_iff in H. destruct H as [Hc Hr].
-  apply negb_true_iff in Hc. cbn [ws_toks]. rewrite Hc. fold (no_lf r) in Hr. rewrite (IH Hr). destruct r; reflexivity.
+  induction l as [|[k s] t IH]; intros H; [reflexivity|]. inversion H as [|? ? Hk Ht]; subst. cbn [fst] in Hk.
+  cbn [app L.eat_whitespace]. destruct k; try discriminate; apply IH, Ht.
 Qed.
 
-Lemma eat_ws w X : no_lf w = true -> L.eat_whitespace (ws_toks w ++ X) = L.eat_whitespace X.
-Proof. intros H. rewrite (ws_toks_nolf w H). destruct w; reflexivity. Qed.
+Lemma eat_ws w X : L.eat_whitespace (ws_toks w ++ X) = L.eat_whitespace X.
+Proof. apply eat_all, ws_toks_kinds. Qed.
 
 Lemma eat_idem X : L.eat_whitespace (L.eat_whitespace X) = L.eat_whitespace X.
 Proof.
-  induction X as [|[k s] r IH]; [reflexivity|]. destruct k; try reflexivity. exact IH.
+  induction X as [|[k s] r IH]; [reflexivity|]. destruct k; try reflexivity; exact IH.
 Qed.
 
-Lemma eat_stop X : hd_kind X <> Some WHITESPACE -> L.eat_whitespace X = X.
-Proof. destruct X as [|[k s] r]; [reflexivity|]. destruct k; try reflexivity. cbn. congruence. Qed.
+Lemma eat_stop X : match hd_kind X with Some WHITESPACE | Some NEWLINE => False | _ => True end -> L.eat_whitespace X = X.
+Proof. destruct X as [|[k s] r]; [reflexivity|]. destruct k; cbn; try reflexivity; contradiction. Qed.
 
 (* ---- :qualifier ---- *)
-Lemma read_archqual_some q X : no_lf (q_ws0 q) = true -> q_ws1 q = [] ->
+Lemma read_archqual_some q X :
   L.read_archqual (L.eat_whitespace (qual_toks q ++ X)) = Ok (Some (q_name q), X).
 Proof.
-  intros H0 H1. unfold qual_toks. rewrite H1. rewrite <- app_assoc. rewrite (eat_ws _ _ H0). reflexivity.
+  unfold qual_toks. rewrite <- !app_assoc. rewrite eat_ws. cbn [app L.eat_whitespace L.read_archqual].
+  rewrite <- app_assoc. rewrite eat_ws. reflexivity.
 Qed.
 
 Lemma read_archqual_none X : hd_kind X <> Some COLON -> L.read_archqual X = Ok (None, X).
@@ -188,7 +193,7 @@ Qed.
 
 Lemma read_version_string_run l : forall Y acc,
   Forall (fun t => fst t = IDENT \/ fst t = COLON) l ->
-  match hd_kind Y with Some R_PARENS | Some WHITESPACE => True | _ => False end ->
+  match hd_kind Y with Some R_PARENS | Some WHITESPACE | Some NEWLINE => True | _ => False end ->
   L.read_version_string (l ++ Y) acc = Ok (acc ++ rttext l, Y).
 Proof.
   induction l as [|[k s] t IH]; intros Y acc Hl HY.
@@ -199,172 +204,168 @@ Proof.
       rewrite <- app_assoc; reflexivity.
 Qed.
 
+Lemma hd_ws_toks_kind w x k : hd_kind (ws_toks w ++ x) = Some k -> (is_ws_kind k = true \/ hd_kind x = Some k).
+Proof.
+  pose proof (ws_toks_kinds w) as H. destruct (ws_toks w) as [|[k' s] t]; [right; assumption|].
+  inversion H; subst. cbn. intros E. injection E as <-. left. assumption.
+Qed.
+
+Lemma read_constraint_stop Y acc :
+  match hd_kind Y with Some EQUAL | Some L_ANGLE | Some R_ANGLE => False | _ => True end ->
+  L.read_constraint Y acc = (acc, Y).
+Proof. destruct Y as [|[k s] r]; [reflexivity|]. cbn [hd_kind]. destruct k; try contradiction; reflexivity. Qed.
+
 Lemma read_constraint_vop o w s Y :
-  no_lf w = true ->
   L.read_constraint (vop_toks o ++ ws_toks w ++ (IDENT, s) :: Y) [] = (vop_text o, ws_toks w ++ (IDENT, s) :: Y).
 Proof.
-  intros Hw. rewrite (ws_toks_nolf w Hw). destruct o; destruct w; reflexivity.
+  assert (Hs : forall acc, L.read_constraint (ws_toks w ++ (IDENT, s) :: Y) acc = (acc, ws_toks w ++ (IDENT, s) :: Y)).
+  { intros acc. apply read_constraint_stop.
+    destruct (hd_kind (ws_toks w ++ (IDENT, s) :: Y)) as [k|] eqn:E; [|exact I].
+    destruct (hd_ws_toks_kind _ _ _ E) as [H|H]; [destruct k; try discriminate; exact I|]. cbn in H. injection H as <-. exact I. }
+  destruct o; cbn [vop_toks app L.read_constraint]; rewrite Hs; reflexivity.
 Qed.
 
 Lemma vc_of_vop_text o : L.vc_of_str (vop_text o) = Some (vc_of_vop o).
 Proof. destruct o; reflexivity. Qed.
 
-Definition vclause_dom (v : vclause) : bool :=
-  no_lf (v_ws0 v) && no_lf (v_ws1 v) && no_lf (v_ws2 v) && no_lf (v_ws3 v).
-
-Lemma read_version_some v d X : vclause_dom v = true -> L.dv_parse (vtext v) = Some d ->
+Lemma read_version_some v d X : L.dv_parse (vtext v) = Some d ->
   L.read_version L.dv_parse (L.eat_whitespace (vclause_toks v ++ X)) = Ok (Some (vc_of_vop (v_op v), d), X).
 Proof.
-  intros Hd Hp. unfold vclause_dom in Hd. andb_split Hd.
-  unfold vclause_toks, vbody_toks. rewrite <- !app_assoc. rewrite (eat_ws _ _ Hd). cbn [app L.eat_whitespace L.read_version].
-  rewrite <- !app_assoc. rewrite (eat_ws _ _ W1).
+  intros Hp. unfold vclause_toks, vbody_toks. rewrite <- !app_assoc. rewrite eat_ws. cbn [app L.eat_whitespace L.read_version].
+  rewrite <- !app_assoc. rewrite eat_ws.
   destruct (hd_vtext v (ws_toks (v_ws3 v) ++ [(R_PARENS, [41%N])] ++ X)) as (s & r & E).
-  rewrite E. rewrite (eat_stop (vop_toks (v_op v) ++ _)) by (destruct (v_op v); discriminate).
-  rewrite (read_constraint_vop _ _ _ _ W0). rewrite vc_of_vop_text.
-  rewrite (eat_ws _ _ W0). rewrite <- E.
-  rewrite (eat_stop (vtext_toks v ++ _)) by (rewrite vtext_toks_shape; discriminate).
+  rewrite E. rewrite (eat_stop (vop_toks (v_op v) ++ _)) by (destruct (v_op v); exact I).
+  rewrite read_constraint_vop. rewrite vc_of_vop_text.
+  rewrite eat_ws. rewrite <- E.
+  rewrite (eat_stop (vtext_toks v ++ _)) by (rewrite vtext_toks_shape; exact I).
   rewrite read_version_string_run; [|apply vtext_toks_kinds|].
-  2:{ rewrite (ws_toks_nolf _ W). destruct (v_ws3 v); exact I. }
-  cbn [app]. rewrite rttext_vtext_toks, Hp. rewrite (eat_ws _ _ W). reflexivity.
+  2:{ destruct (hd_kind (ws_toks (v_ws3 v) ++ [(R_PARENS, [41%N])] ++ X)) as [k|] eqn:Eh; [|destruct (ws_toks (v_ws3 v)) as [|[? ?] ?]; discriminate Eh].
+      destruct (hd_ws_toks_kind _ _ _ Eh) as [H|H]; [destruct k; try discriminate; exact I|]. cbn in H. injection H as <-. exact I. }
+  cbn [app]. rewrite rttext_vtext_toks, Hp. rewrite eat_ws. reflexivity.
 Qed.
 
 Lemma read_version_none X : hd_kind X <> Some L_PARENS -> L.read_version L.dv_parse X = Ok (None, X).
 Proof. destruct X as [|[k s] r]; [reflexivity|]. destruct k; try reflexivity. cbn. congruence. Qed.
 
 (* ---- [ arch ... ] and < profile ... > ---- *)
-Definition group_dom (g : group) : bool :=
-  no_lf (g_ws0 g) && forallb (fun t => no_lf (t_ws t)) (g_terms g) && no_lf (g_ws1 g).
-
-Lemma read_archs_terms terms : forall w1 x X acc,
-  forallb (fun t => no_lf (t_ws t)) terms = true -> no_lf w1 = true ->
-  L.read_archs (flat_map term_toks terms ++ ws_toks w1 ++ (R_BRACKET, x) :: X) acc = Ok (acc ++ map lossy_arch terms, X).
+Lemma read_archs_ws l : forall X acc, wsks l -> L.read_archs (l ++ X) acc = L.read_archs X acc.
 Proof.
-  induction terms as [|[tw b name] r IH]; intros w1 x X acc Ht Hw.
-  - cbn [flat_map app map]. rewrite (ws_toks_nolf w1 Hw), app_nil_r. destruct w1; reflexivity.
-  - cbn [forallb t_ws] in Ht. apply andb_true_iff in Ht. destruct Ht as [Htw Hr].
-    cbn [flat_map]. unfold term_toks at 1. cbn [t_ws t_neg t_name]. rewrite <- !app_assoc.
-    rewrite (ws_toks_nolf tw Htw).
-    assert (E : forall acc0, L.read_archs ((neg_toks b ++ [(IDENT, name)]) ++ flat_map term_toks r ++ ws_toks w1 ++ (R_BRACKET, x) :: X) acc0 =
-                Ok (acc0 ++ map lossy_arch (mk_term tw b name :: r), X)).
-    { intros acc0. destruct b; cbn [neg_toks app L.read_archs]; rewrite (IH _ _ _ _ Hr Hw); rewrite <- app_assoc; reflexivity. }
-    rewrite <- app_assoc in E. destruct tw; cbn [app L.read_archs]; apply E.
+  induction l as [|[k s] t IH]; intros X acc H; [reflexivity|]. inversion H as [|? ? Hk Ht]; subst. cbn [fst] in Hk.
+  cbn [app L.read_archs]. destruct k; try discriminate; apply IH, Ht.
+Qed.
+Lemma read_group_ws l : forall X acc, wsks l -> L.read_profile_group (l ++ X) acc = L.read_profile_group X acc.
+Proof.
+  induction l as [|[k s] t IH]; intros X acc H; [reflexivity|]. inversion H as [|? ? Hk Ht]; subst. cbn [fst] in Hk.
+  cbn [app L.read_profile_group]. destruct k; try discriminate; apply IH, Ht.
 Qed.
 
-Lemma read_architectures_some g X : group_dom g = true ->
+Lemma read_archs_terms terms : forall w1 x X acc,
+  L.read_archs (flat_map term_toks terms ++ ws_toks w1 ++ (R_BRACKET, x) :: X) acc = Ok (acc ++ map lossy_arch terms, X).
+Proof.
+  induction terms as [|[tw b name] r IH]; intros w1 x X acc.
+  - cbn [flat_map app map]. rewrite read_archs_ws by apply ws_toks_kinds. rewrite app_nil_r. reflexivity.
+  - cbn [flat_map]. unfold term_toks at 1. cbn [t_ws t_neg t_name]. rewrite <- !app_assoc.
+    rewrite read_archs_ws by apply ws_toks_kinds.
+    destruct b; cbn [neg_toks app L.read_archs]; rewrite IH; rewrite <- app_assoc; reflexivity.
+Qed.
+
+Lemma read_architectures_some g X :
   L.read_architectures (L.eat_whitespace (arch_toks g ++ X)) = Ok (Some (map lossy_arch (g_terms g)), X).
 Proof.
-  intros Hd. unfold group_dom in Hd. andb_split Hd.
-  unfold arch_toks, arch_body_toks, group_body_toks. rewrite <- !app_assoc. rewrite (eat_ws _ _ Hd).
+  unfold arch_toks, arch_body_toks, group_body_toks. rewrite <- !app_assoc. rewrite eat_ws.
   cbn [app L.eat_whitespace L.read_architectures]. rewrite <- !app_assoc. cbn [app].
-  rewrite (read_archs_terms _ _ _ _ _ W0 W). reflexivity.
+  rewrite read_archs_terms. reflexivity.
 Qed.
 
 Lemma read_architectures_none X : hd_kind X <> Some L_BRACKET -> L.read_architectures X = Ok (None, X).
 Proof. destruct X as [|[k s] r]; [reflexivity|]. destruct k; try reflexivity. cbn. congruence. Qed.
 
 Lemma read_group_terms terms : forall w1 x X acc,
-  forallb (fun t => no_lf (t_ws t)) terms = true -> no_lf w1 = true ->
   L.read_profile_group (flat_map term_toks terms ++ ws_toks w1 ++ (R_ANGLE, x) :: X) acc = Ok (acc ++ map lossy_profile terms, X).
 Proof.
-  induction terms as [|[tw b name] r IH]; intros w1 x X acc Ht Hw.
-  - cbn [flat_map app map]. rewrite (ws_toks_nolf w1 Hw), app_nil_r. destruct w1; reflexivity.
-  - cbn [forallb t_ws] in Ht. apply andb_true_iff in Ht. destruct Ht as [Htw Hr].
-    cbn [flat_map]. unfold term_toks at 1. cbn [t_ws t_neg t_name]. rewrite <- !app_assoc.
-    rewrite (ws_toks_nolf tw Htw).
-    assert (E : forall acc0, L.read_profile_group ((neg_toks b ++ [(IDENT, name)]) ++ flat_map term_toks r ++ ws_toks w1 ++ (R_ANGLE, x) :: X) acc0 =
-                Ok (acc0 ++ map lossy_profile (mk_term tw b name :: r), X)).
-    { intros acc0. destruct b; cbn [neg_toks app L.read_profile_group]; rewrite (IH _ _ _ _ Hr Hw); rewrite <- app_assoc; reflexivity. }
-    rewrite <- app_assoc in E. destruct tw; cbn [app L.read_profile_group]; apply E.
+  induction terms as [|[tw b name] r IH]; intros w1 x X acc.
+  - cbn [flat_map app map]. rewrite read_group_ws by apply ws_toks_kinds. rewrite app_nil_r. reflexivity.
+  - cbn [flat_map]. unfold term_toks at 1. cbn [t_ws t_neg t_name]. rewrite <- !app_assoc.
+    rewrite read_group_ws by apply ws_toks_kinds.
+    destruct b; cbn [neg_toks app L.read_profile_group]; rewrite IH; rewrite <- app_assoc; reflexivity.
 Qed.
 
-Lemma read_profiles_groups ps : forall fuel acc, length ps < fuel -> forallb group_dom ps = true ->
+Lemma read_profiles_groups ps : forall fuel acc, length ps < fuel ->
   L.read_profiles fuel (L.eat_whitespace (flat_map prof_toks ps)) acc =
   Ok (acc ++ map (fun g => map lossy_profile (g_terms g)) ps, []).
 Proof.
-  induction ps as [|g r IH]; intros fuel acc Hf Hd.
+  induction ps as [|g r IH]; intros fuel acc Hf.
   - cbn [flat_map map L.eat_whitespace]. rewrite app_nil_r. destruct fuel; reflexivity.
   - destruct fuel as [|f]; [cbn in Hf; lia|].
-    cbn [forallb] in Hd. apply andb_true_iff in Hd. destruct Hd as [Hg Hr]. unfold group_dom in Hg. andb_split Hg.
-    cbn [flat_map]. unfold prof_toks at 1, prof_body_toks, group_body_toks. rewrite <- !app_assoc. rewrite (eat_ws _ _ Hg).
+    cbn [flat_map]. unfold prof_toks at 1, prof_body_toks, group_body_toks. rewrite <- !app_assoc. rewrite eat_ws.
     cbn [app L.eat_whitespace L.read_profiles]. rewrite <- !app_assoc. cbn [app].
-    rewrite (read_group_terms _ _ _ _ _ W0 W). rewrite IH by (cbn in Hf; lia || exact Hr).
+    rewrite read_group_terms. rewrite IH by (cbn in Hf; lia).
     cbn [map]. rewrite <- app_assoc. reflexivity.
 Qed.
 
 (* ---- a whole relation ---- *)
-Lemma hd_eat_vclause v X : vclause_dom v = true -> hd_kind (L.eat_whitespace (vclause_toks v ++ X)) = Some L_PARENS.
-Proof.
-  intros Hd. unfold vclause_dom in Hd. andb_split Hd. unfold vclause_toks, vbody_toks. rewrite <- !app_assoc.
-  rewrite (eat_ws _ _ Hd). reflexivity.
-Qed.
-Lemma hd_eat_arch g X : group_dom g = true -> hd_kind (L.eat_whitespace (arch_toks g ++ X)) = Some L_BRACKET.
-Proof.
-  intros Hd. unfold group_dom in Hd. andb_split Hd. unfold arch_toks, arch_body_toks, group_body_toks. rewrite <- !app_assoc.
-  rewrite (eat_ws _ _ Hd). reflexivity.
-Qed.
-Lemma hd_eat_profs ps : forallb group_dom ps = true ->
+Lemma hd_eat_vclause v X : hd_kind (L.eat_whitespace (vclause_toks v ++ X)) = Some L_PARENS.
+Proof. unfold vclause_toks, vbody_toks. rewrite <- !app_assoc. rewrite eat_ws. reflexivity. Qed.
+Lemma hd_eat_arch g X : hd_kind (L.eat_whitespace (arch_toks g ++ X)) = Some L_BRACKET.
+Proof. unfold arch_toks, arch_body_toks, group_body_toks. rewrite <- !app_assoc. rewrite eat_ws. reflexivity. Qed.
+Lemma hd_eat_profs ps :
   hd_kind (L.eat_whitespace (flat_map prof_toks ps)) = match ps with [] => None | _ :: _ => Some L_ANGLE end.
 Proof.
-  destruct ps as [|g r]; [reflexivity|]. cbn [forallb flat_map]. intros H. apply andb_true_iff in H. destruct H as [Hg _].
-  unfold group_dom in Hg. andb_split Hg. unfold prof_toks at 1, prof_body_toks, group_body_toks. rewrite <- !app_assoc.
-  rewrite (eat_ws _ _ Hg). reflexivity.
+  destruct ps as [|g r]; [reflexivity|]. cbn [flat_map].
+  unfold prof_toks at 1, prof_body_toks, group_body_toks. rewrite <- !app_assoc. rewrite eat_ws. reflexivity.
 Qed.
 
-Lemma len_eat_profs ps : forallb group_dom ps = true -> length ps <= length (L.eat_whitespace (flat_map prof_toks ps)).
+Lemma len_eat_profs ps : length ps <= length (L.eat_whitespace (flat_map prof_toks ps)).
 Proof.
-  destruct ps as [|g r]; [intros _; cbn; lia|]. cbn [forallb flat_map]. intros H. apply andb_true_iff in H. destruct H as [Hg _].
-  unfold group_dom in Hg. andb_split Hg. unfold prof_toks at 1, prof_body_toks, group_body_toks. rewrite <- !app_assoc.
-  rewrite (eat_ws _ _ Hg). cbn [app L.eat_whitespace length]. rewrite !app_length. pose proof (len_profs r). cbn [length]. lia.
+  destruct ps as [|g r]; [cbn; lia|]. cbn [flat_map].
+  unfold prof_toks at 1, prof_body_toks, group_body_toks. rewrite <- !app_assoc.
+  rewrite eat_ws. cbn [app L.eat_whitespace length]. rewrite !app_length. pose proof (len_profs r). cbn [length]. lia.
 Qed.
 
 Ltac hd_side :=
   first
-  [ rewrite hd_eat_vclause by assumption; discriminate
-  | rewrite hd_eat_arch by assumption; discriminate
-  | match goal with |- context [flat_map prof_toks ?ps] => rewrite (hd_eat_profs ps) by assumption; destruct ps; discriminate end ].
+  [ rewrite hd_eat_vclause; discriminate
+  | rewrite hd_eat_arch; discriminate
+  | match goal with |- context [flat_map prof_toks ?ps] => rewrite (hd_eat_profs ps); destruct ps; discriminate end ].
 
-Theorem relation_from_core_toks r : wf_rel r = true -> rel_lossy_dom r = true ->
+Theorem relation_from_core_toks r : wf_rel r = true ->
   L.relation_from_tokens L.dv_parse (rel_core_toks r) = Ok (lossy_rel r).
 Proof.
-  intros Hwf Hdom. unfold wf_rel in Hwf. andb_split Hwf.
-  unfold rel_lossy_dom in Hdom. andb_split Hdom.
+  intros Hwf. unfold wf_rel in Hwf. andb_split Hwf.
   destruct r as [name q v a ps trail]. cbn [r_name r_qual r_ver r_archs r_profs r_trail] in *.
-  change (forallb group_inl ps) with (forallb group_dom ps) in W4.
   unfold rel_core_toks, lossy_rel. cbn [r_name r_qual r_ver r_archs r_profs r_trail].
   unfold L.relation_from_tokens. cbn [L.read_name bind].
-  (* the last two stages, from a state in which only the profile groups are left *)
   assert (Tail : forall fuel n aq ar (ve : option (L.vconstraint * L.dversion)), length ps < fuel ->
      bind (L.read_profiles fuel (L.eat_whitespace (flat_map prof_toks ps)) [])
        (fun '(profs, t5) => match L.eat_whitespace t5 with
                             | [] => Ok (L.mkRel n aq ar ve profs)
                             | _ :: _ => Err 9%N end) =
      Ok (L.mkRel n aq ar ve (map (fun g => map lossy_profile (g_terms g)) ps))).
-  { intros fuel n aq ar ve Hf. rewrite (read_profiles_groups ps fuel [] Hf W4). reflexivity. }
+  { intros fuel n aq ar ve Hf. rewrite (read_profiles_groups ps fuel [] Hf). reflexivity. }
   assert (Lp : length ps < S (length (flat_map prof_toks ps))) by (pose proof (len_profs ps); lia).
-  assert (Lp' : length ps < S (length (L.eat_whitespace (flat_map prof_toks ps)))) by (pose proof (len_eat_profs ps W4); lia).
+  assert (Lp' : length ps < S (length (L.eat_whitespace (flat_map prof_toks ps)))) by (pose proof (len_eat_profs ps); lia).
   destruct q as [q|]; cbn [opt_toks option_map opt_ok app] in *.
-  - apply andb_true_iff in Hdom. destruct Hdom as [Hq0 Hq1]. destruct (q_ws1 q) eqn:Eq1; [|discriminate].
-    rewrite (read_archqual_some q _ Hq0 Eq1). cbn [bind].
+  - rewrite (read_archqual_some q _). cbn [bind].
     destruct v as [v|]; cbn [opt_toks opt_ok app] in *.
-    + change (vclause_dom v = true) in W6. destruct (dv_vtext v W2) as (d & Hp & _). unfold lossy_version. rewrite Hp.
-      rewrite (read_version_some v d _ W6 Hp). cbn [bind].
+    + destruct (dv_vtext v W2) as (d & Hp & _). unfold lossy_version. rewrite Hp.
+      rewrite (read_version_some v d _ Hp). cbn [bind].
       destruct a as [g|]; cbn [opt_toks option_map opt_ok app] in *.
-      * change (group_dom g = true) in W5. rewrite (read_architectures_some g _ W5). cbn [bind]. apply Tail, Lp.
+      * rewrite (read_architectures_some g _). cbn [bind]. apply Tail, Lp.
       * rewrite read_architectures_none by hd_side. cbn [bind]. rewrite eat_idem. apply Tail, Lp'.
     + rewrite read_version_none by (destruct a; cbn [opt_toks opt_ok app] in *; hd_side). cbn [bind]. rewrite eat_idem.
       destruct a as [g|]; cbn [opt_toks option_map opt_ok app] in *.
-      * change (group_dom g = true) in W5. rewrite (read_architectures_some g _ W5). cbn [bind]. apply Tail, Lp.
+      * rewrite (read_architectures_some g _). cbn [bind]. apply Tail, Lp.
       * rewrite read_architectures_none by hd_side. cbn [bind]. rewrite eat_idem. apply Tail, Lp'.
   - rewrite read_archqual_none by (destruct v; [|destruct a]; cbn [opt_toks opt_ok app] in *; hd_side). cbn [bind]. rewrite eat_idem.
     destruct v as [v|]; cbn [opt_toks opt_ok app] in *.
-    + change (vclause_dom v = true) in W6. destruct (dv_vtext v W2) as (d & Hp & _). unfold lossy_version. rewrite Hp.
-      rewrite (read_version_some v d _ W6 Hp). cbn [bind].
+    + destruct (dv_vtext v W2) as (d & Hp & _). unfold lossy_version. rewrite Hp.
+      rewrite (read_version_some v d _ Hp). cbn [bind].
       destruct a as [g|]; cbn [opt_toks option_map opt_ok app] in *.
-      * change (group_dom g = true) in W5. rewrite (read_architectures_some g _ W5). cbn [bind]. apply Tail, Lp.
+      * rewrite (read_architectures_some g _). cbn [bind]. apply Tail, Lp.
       * rewrite read_architectures_none by hd_side. cbn [bind]. rewrite eat_idem. apply Tail, Lp'.
     + rewrite read_version_none by (destruct a; cbn [opt_toks opt_ok app] in *; hd_side). cbn [bind]. rewrite eat_idem.
       destruct a as [g|]; cbn [opt_toks option_map opt_ok app] in *.
-      * change (group_dom g = true) in W5. rewrite (read_architectures_some g _ W5). cbn [bind]. apply Tail, Lp.
+      * rewrite (read_architectures_some g _). cbn [bind]. apply Tail, Lp.
       * rewrite read_architectures_none by hd_side. cbn [bind]. rewrite eat_idem. apply Tail, Lp'.
 Qed.
 
@@ -585,10 +586,10 @@ Proof.
 Qed.
 
 (* ================= a relation, the alternatives of an entry, the entries of a field ================= *)
-Theorem relation_from_str_core r : wf_rel r = true -> rel_lossy_dom r = true ->
+Theorem relation_from_str_core r : wf_rel r = true ->
   L.relation_from_str L.dv_parse (rel_core_text r) = Ok (lossy_rel r).
 Proof.
-  intros Hwf Hdom. unfold L.relation_from_str. rewrite (rlex_rel_core r Hwf). cbn [bind].
+  intros Hwf. unfold L.relation_from_str. rewrite (rlex_rel_core r Hwf). cbn [bind].
   apply relation_from_core_toks; assumption.
 Qed.
 
@@ -616,15 +617,14 @@ Proof.
   - rewrite IH. rewrite <- !app_assoc. cbn [app]. rewrite <- !app_assoc. reflexivity.
 Qed.
 
-Definition alt_dom (wr : str * rel) : bool := rel_lossy_dom (snd wr).
 Definition lossy_alt (wr : str * rel) : L.relation L.dversion := lossy_rel (snd wr).
 
-Lemma read_alts alts : forall r w0, ws_ok w0 = true -> wf_rel r = true -> rel_lossy_dom r = true ->
-  forallb wf_alt alts = true -> forallb alt_dom alts = true ->
+Lemma read_alts alts : forall r w0, ws_ok w0 = true -> wf_rel r = true ->
+  forallb wf_alt alts = true ->
   L.read_alternatives L.dv_parse (L.split_on_go 124%N (w0 ++ rels_core_text r alts) []) =
   Ok (lossy_rel r :: map lossy_alt alts).
 Proof.
-  induction alts as [|[w r'] alts IH]; intros r w0 Hw0 Hwf Hdom Ha Hd; cbn [rels_core_text].
+  induction alts as [|[w r'] alts IH]; intros r w0 Hw0 Hwf Ha; cbn [rels_core_text].
   - rewrite split_go_nosep.
     2:{ apply nosep2_sep; [reflexivity|]. rewrite nosep2_app, (nosep2_ws _ Hw0), (nosep2_rel_core _ Hwf). reflexivity. }
     cbn [app L.read_alternatives map].
@@ -633,17 +633,17 @@ Proof.
       rewrite app_nil_r in E. exact E. }
     rewrite Et.
     rewrite RelLossyP.match_nonempty by (apply nonempty_head, rel_core_head, Hwf).
-    rewrite (relation_from_str_core r Hwf Hdom). reflexivity.
-  - cbn [forallb] in Ha, Hd. apply andb_true_iff in Ha. destruct Ha as [Hwr Ha]. apply andb_true_iff in Hd. destruct Hd as [Hdr Hd].
-    unfold wf_alt in Hwr. cbn [fst snd] in Hwr. apply andb_true_iff in Hwr. destruct Hwr as [Hw Hwf']. unfold alt_dom in Hdr. cbn [snd] in Hdr.
+    rewrite (relation_from_str_core r Hwf). reflexivity.
+  - cbn [forallb] in Ha. apply andb_true_iff in Ha. destruct Ha as [Hwr Ha].
+    unfold wf_alt in Hwr. cbn [fst snd] in Hwr. apply andb_true_iff in Hwr. destruct Hwr as [Hw Hwf'].
     rewrite app_assoc. rewrite split_go_app.
     2:{ apply nosep2_sep; [reflexivity|]. rewrite nosep2_app, (nosep2_ws _ Hw0), (nosep2_rel _ Hwf). reflexivity. }
     cbn [app L.read_alternatives map].
     rewrite rel_text_core.
     rewrite (trim_core w0 (rel_core_text r) (r_trail r) (ws_ok_uws _ Hw0) (ws_ok_uws _ (wf_rel_trail r Hwf)) (rel_core_head r Hwf) (rel_core_last r Hwf)).
     rewrite RelLossyP.match_nonempty by (apply nonempty_head, rel_core_head, Hwf).
-    rewrite (relation_from_str_core r Hwf Hdom). cbn [bind].
-    rewrite (IH r' w Hw Hwf' Hdr Ha Hd). reflexivity.
+    rewrite (relation_from_str_core r Hwf). cbn [bind].
+    rewrite (IH r' w Hw Hwf' Ha). reflexivity.
 Qed.
 
 Lemma rels_core_head alts r : wf_rel r = true -> nonws_head (rels_core_text r alts).
@@ -687,18 +687,18 @@ Definition lossy_item_entries (i : item) : list (list (L.relation L.dversion)) :
   match i with IEntry r alts => [lossy_rel r :: map lossy_alt alts] | _ => [] end.
 
 (* one piece of split(','): leading whitespace and an item *)
-Lemma read_entries_piece i w0 rest : ws_ok w0 = true -> wf_item false i = true -> item_lossy_dom i = true ->
+Lemma read_entries_piece i w0 rest : ws_ok w0 = true -> wf_item false i = true ->
   L.read_entries L.dv_parse ((w0 ++ item_text i) :: rest) =
   bind (L.read_entries L.dv_parse rest) (fun ents => Ok (lossy_item_entries i ++ ents)).
 Proof.
-  intros Hw0 Hwf Hdom. destruct i as [r alts|seg segs trail|]; cbn [wf_item item_lossy_dom item_text lossy_item_entries] in *; [| discriminate |].
-  - apply andb_true_iff in Hwf. destruct Hwf as [Hr Ha]. apply andb_true_iff in Hdom. destruct Hdom as [Hdr Hda].
+  intros Hw0 Hwf. destruct i as [r alts|seg segs trail|]; cbn [wf_item item_text lossy_item_entries] in *; [| discriminate |].
+  - apply andb_true_iff in Hwf. destruct Hwf as [Hr Ha].
     cbn [L.read_entries]. rewrite rels_text_core.
     rewrite (trim_core w0 (rels_core_text r alts) (rels_last_trail r alts) (ws_ok_uws _ Hw0)
                (ws_ok_uws _ (rels_last_trail_ws alts r Hr Ha)) (rels_core_head alts r Hr) (rels_core_last alts r Hr Ha)).
     rewrite RelLossyP.match_nonempty by (apply nonempty_head, rels_core_head, Hr).
     unfold L.split_on. rewrite <- (app_nil_l (rels_core_text r alts)).
-    rewrite (read_alts alts r [] eq_refl Hr Hdr Ha Hda). cbn [bind app].
+    rewrite (read_alts alts r [] eq_refl Hr Ha). cbn [bind app].
     destruct (L.read_entries L.dv_parse rest); reflexivity.
   - cbn [L.read_entries]. rewrite app_nil_r. rewrite (trim_uws w0 (ws_ok_uws _ Hw0)).
     destruct (L.read_entries L.dv_parse rest); reflexivity.
@@ -710,22 +710,20 @@ Proof.
   apply andb_true_iff in H. destruct H as [Hr Ha]. apply nocomma_rels; assumption.
 Qed.
 
-Definition more_dom (wi : str * item) : bool := item_lossy_dom (snd wi).
-
-Lemma read_entries_items more : forall i w0, ws_ok w0 = true -> wf_item false i = true -> item_lossy_dom i = true ->
-  forallb (wf_more false) more = true -> forallb more_dom more = true ->
+Lemma read_entries_items more : forall i w0, ws_ok w0 = true -> wf_item false i = true ->
+  forallb (wf_more false) more = true ->
   L.read_entries L.dv_parse (L.split_on_go 44%N (w0 ++ items_text i more) []) =
   Ok (flat_map lossy_item_entries (i :: map snd more)).
 Proof.
-  induction more as [|[w i'] more IH]; intros i w0 Hw0 Hwf Hdom Hm Hd; cbn [items_text].
+  induction more as [|[w i'] more IH]; intros i w0 Hw0 Hwf Hm; cbn [items_text].
   - rewrite app_nil_r. rewrite split_go_nosep.
     2:{ fold (nocomma (w0 ++ item_text i)). rewrite nocomma_app, (nocomma_nosep2 _ (nosep2_ws _ Hw0)), (nocomma_item i Hwf). reflexivity. }
-    cbn [app]. rewrite (read_entries_piece i w0 [] Hw0 Hwf Hdom). cbn [L.read_entries bind map flat_map]. reflexivity.
-  - cbn [forallb] in Hm, Hd. apply andb_true_iff in Hm. destruct Hm as [Hwi Hm]. apply andb_true_iff in Hd. destruct Hd as [Hdi Hd].
-    unfold wf_more in Hwi. cbn [fst snd] in Hwi. apply andb_true_iff in Hwi. destruct Hwi as [Hw Hwf']. unfold more_dom in Hdi. cbn [snd] in Hdi.
+    cbn [app]. rewrite (read_entries_piece i w0 [] Hw0 Hwf). cbn [L.read_entries bind map flat_map]. reflexivity.
+  - cbn [forallb] in Hm. apply andb_true_iff in Hm. destruct Hm as [Hwi Hm].
+    unfold wf_more in Hwi. cbn [fst snd] in Hwi. apply andb_true_iff in Hwi. destruct Hwi as [Hw Hwf'].
     rewrite app_assoc. rewrite split_go_app.
     2:{ fold (nocomma (w0 ++ item_text i)). rewrite nocomma_app, (nocomma_nosep2 _ (nosep2_ws _ Hw0)), (nocomma_item i Hwf). reflexivity. }
-    cbn [app]. rewrite (read_entries_piece i w0 _ Hw0 Hwf Hdom). rewrite (IH i' w Hw Hwf' Hdi Hm Hd). cbn [bind map snd flat_map]. reflexivity.
+    cbn [app]. rewrite (read_entries_piece i w0 _ Hw0 Hwf). rewrite (IH i' w Hw Hwf' Hm). cbn [bind map snd flat_map]. reflexivity.
 Qed.
 
 Lemma relations_from_str_split s : L.relations_from_str L.dv_parse s = L.read_entries L.dv_parse (L.split_on 44%N s).
@@ -733,15 +731,12 @@ Proof. destruct s; reflexivity. Qed.
 
 Definition lossy_field (f : rfield) : list (list (L.relation L.dversion)) := flat_map lossy_item_entries (f_items f).
 
-Theorem lossy_rrender f : wf_rfield false f = true -> lossy_dom f = true ->
+Theorem lossy_rrender f : wf_rfield false f = true ->
   L.relations_from_str L.dv_parse (rrender f) = Ok (lossy_field f).
 Proof.
-  intros Hwf Hdom. unfold wf_rfield in Hwf. andb_split Hwf.
-  unfold lossy_dom, f_items in Hdom. cbn [forallb] in Hdom. apply andb_true_iff in Hdom. destruct Hdom as [Hd0 Hdr].
+  intros Hwf. unfold wf_rfield in Hwf. andb_split Hwf.
   rewrite relations_from_str_split. unfold rrender, L.split_on, lossy_field, f_items.
-  apply read_entries_items; try assumption.
-  clear -Hdr. induction (f_rest f) as [|[w i] r IH]; [reflexivity|]. cbn [map forallb snd] in *.
-  apply andb_true_iff in Hdr. destruct Hdr as [Hi Hr]. unfold more_dom at 1. cbn [snd]. rewrite Hi, (IH Hr). reflexivity.
+  apply read_entries_items; assumption.
 Qed.
 
 (* ================= the lossy value in the accessors' type, and the clause ================= *)
@@ -789,11 +784,11 @@ Proof.
   cbn [map snd flat_map]. rewrite !map_app, (Hi _ Hi'), (IH Hr). reflexivity.
 Qed.
 
-Theorem C10_lossy_all f : wf_rfield false f = true -> lossy_dom f = true ->
+Theorem C10_lossy_all f : wf_rfield false f = true ->
   lossy_model (rrender f) = Ok (fst (rcontent_acc f)) /\
   map (map relc_view) (fst (rcontent_acc f)) = fst (rcontent f).
 Proof.
-  intros Hwf Hdom. split.
-  - unfold lossy_model. rewrite (lossy_rrender f Hwf Hdom). cbn [rmap bind]. rewrite (lossy_field_acc f Hwf). reflexivity.
+  intros Hwf. split.
+  - unfold lossy_model. rewrite (lossy_rrender f Hwf). cbn [rmap bind]. rewrite (lossy_field_acc f Hwf). reflexivity.
   - pose proof (racc_view_content false f Hwf) as E. unfold racc_view in E. apply (f_equal fst) in E. exact E.
 Qed.
